@@ -395,6 +395,18 @@ def run(ctx, prog):
     r0 = rc.reach([0], avoid_edges=none_e)
     ctx.inst('C04.R5', rc.short, 'repair insert only when a canonical component is missing', bool(ci) and bool(none_e) and all(c.bb not in r0 for c in ci),
              'None edges %d; repair insert %s' % (len(none_e), 'reachable with both components present' if any(c.bb in r0 for c in ci) else 'only behind a None edge'))
+    # …and not for the mirror of a DELETED document: the drain takes the mirror entries out first and handles them one by one afterwards, so a delete can complete
+    # while an entry waits in the drain's batch. With both canonical components missing, the repair insert is reachable only for an entry that never mirrored a
+    # canonical record (token version 0; live canonical versions start at 1) — otherwise the drain undoes an acknowledged delete
+    some_e = [(i_, tg) for (i_, tg, p_) in both]
+    v0_e = [(i_, tg) for i_, blk in enumerate(rc.blocks) if blk['t']['k'] == 'switch' and i_ in rc.live_blocks() for tg, p_ in flow.switch_edge_predicates(rc, i_, rv)
+            if re.match(r'^cmp\[\+ .*VectorCoherenceToken\.version == 0\]$', p_)]
+    r_del = rc.reach([0], avoid_edges=some_e + v0_e)
+    ok_del = bool(ci) and bool(some_e) and all(c.bb not in r_del for c in ci)
+    ctx.inst('C04.R5', rc.short, 'the mirror of a deleted document is dropped, not repaired', ok_del,
+             'with both canonical components missing the repair insert is %s (version-0 edges: %d)' % (
+                 'reachable for an entry that mirrors a canonical version: a delete that completed while the drain held the entry is undone' if not ok_del
+                 else 'reachable only for an entry whose token version is 0', len(v0_e)))
     srcs = [flow.render(flow.Origin(rc).of_operand(a)) for a in (ci[0].args[2:4] if ci else [])]
     # ------------------------------------------------------------------ R6 positional agreement of bulk answers
     ctx.rule('C04.R6', 'a bulk lookup answers position by position: the ids handed to the canonical bulk fetch are the pending positions mapped through doc_ids, '
